@@ -224,7 +224,9 @@ Proof.
     destruct (negb (wv_truthy (WDict j))); [apply appends_lift|].
     apply appends_bind; [apply appends_lift|]. intro fok.
     destruct (negb fok); [apply appends_lift|].
-    apply appends_bind; [apply appends_lift|]. intro dumped. apply appends_ncontent.
+    apply appends_bind; [apply appends_lift|]. intro dumped.
+    apply appends_bind; [apply appends_get|]. intro s0.
+    apply appends_bind; [apply appends_lift|]. intro has_enc. apply appends_ncontent.
   - destruct content; try apply appends_lift.
     apply appends_bind; [apply appends_lift|]. intro tok.
     destruct (negb tok); [apply appends_lift | apply appends_ncontent].
@@ -311,6 +313,8 @@ Proof.
     destruct (negb fok); [eapply lift_err_same; eassumption|].
     rewrite bind_lift in H.
     destruct (json_dump j) as [d|e1]; [|inversion H; reflexivity].
+    rewrite bind_get, bind_lift in H.
+    destruct (if wv_truthy enc then _ else _) as [he|e1]; [|inversion H; reflexivity].
     eapply ncontent_atomic; eassumption.
   - destruct content; try (eapply lift_err_same; eassumption).
     rewrite bind_lift in H.
@@ -476,6 +480,8 @@ Proof.
     destruct (negb fok); [eapply Hkeep; eassumption|].
     rewrite bind_lift in H.
     destruct (json_dump j) as [d|e1]; [|inversion H; subst; exact HI].
+    rewrite bind_get, bind_lift in H.
+    destruct (if wv_truthy enc then _ else _) as [he|e1]; [|inversion H; subst; exact HI].
     eapply ncontent_inv; [| exact HI | exact H]. cbn; auto.
   - destruct content; try (eapply Hkeep; eassumption).
     rewrite bind_lift in H.
@@ -600,6 +606,8 @@ Proof.
     destruct (negb fok); [exfalso; eapply Hno; eassumption|].
     rewrite bind_lift in H.
     destruct (json_dump j) as [d|e1]; [|inversion H].
+    rewrite bind_get, bind_lift in H.
+    destruct (if wv_truthy enc then _ else _) as [he|e1]; [|inversion H].
     rewrite ncontent_eq in H.
     destruct (validate_section s _) as [[]|e1]; [reflexivity | inversion H].
   - destruct content; try (exfalso; eapply Hno; eassumption).
@@ -652,7 +660,9 @@ Proof.
     destruct (in_strset _ _) as [fok|e1]; [|inversion H].
     destruct (negb fok); [exfalso; eapply Hno; eassumption|].
     rewrite bind_lift in H.
-    destruct (json_dump j) as [d|e1]; [|inversion H]. eapply Hcont; eassumption.
+    destruct (json_dump j) as [d|e1]; [|inversion H].
+    rewrite bind_get, bind_lift in H.
+    destruct (if wv_truthy enc then _ else _) as [he|e1]; [|inversion H]. eapply Hcont; eassumption.
   - destruct content; try (exfalso; eapply Hno; eassumption).
     rewrite bind_lift in H.
     destruct (match dt with WNone => Ok true | _ => _ end) as [tok|e1]; [|inversion H].
@@ -974,6 +984,29 @@ Qed.
 Lemma cur_encoding_hd : forall s, w_stack s <> [] -> cur_encoding s = Ok (hd WNone (w_stack s)).
 Proof. intros s H. unfold cur_encoding. destruct (w_stack s); [congruence | reflexivity]. Qed.
 
+(* write_meta's test "is an encoding in force?": a catalogue spelling is a non-empty str, hence truthy *)
+Lemma codec_for_truthy : forall v canon c, codec_for v canon c -> wv_truthy v = true.
+Proof.
+  intros v canon c (e & eb & -> & Heb & Hlk). destruct e as [|x e]; [|reflexivity].
+  exfalso. cbn in Heb. injection Heb as <-. vm_compute in Hlk. discriminate.
+Qed.
+
+Lemma meta_has_enc : forall s enc, w_stack s <> [] -> wv_truthy (eff_encoding s enc true) = true ->
+  (if wv_truthy enc then Ok true else do ce <- cur_encoding s; Ok (wv_truthy ce)) = Ok true.
+Proof.
+  intros s enc Hne H. unfold eff_encoding in H. destruct (wv_truthy enc); [reflexivity|].
+  cbn [negb andb] in H. rewrite cur_encoding_hd by assumption. cbn [bind]. rewrite H. reflexivity.
+Qed.
+
+(* ... and with no encoding in force (the argument and the innermost container's are both falsy) the test is false *)
+Lemma meta_no_enc : forall s enc, w_stack s <> [] -> wv_truthy (eff_encoding s enc true) = false ->
+  (if wv_truthy enc then Ok true else do ce <- cur_encoding s; Ok (wv_truthy ce)) = Ok false.
+Proof.
+  intros s enc Hne H. unfold eff_encoding in H. destruct (wv_truthy enc) eqn:E.
+  - cbn [negb andb] in H. congruence.
+  - cbn [negb andb] in H. rewrite cur_encoding_hd by assumption. cbn [bind]. rewrite H. reflexivity.
+Qed.
+
 Lemma enc_ascii_roundtrip_choice :
   forallb (fun x => match c_enc ascii (ascii_text x) with Some y => beq x y | None => false end)
           GenText.line_endings_values = true.
@@ -1176,6 +1209,7 @@ Proof.
     rewrite bind_lift, Hd.
     pose proof (text_enc_rv _ _ _ Htx) as Hrenc.
     destruct Htx as (_ & canon & c & Hcodec & cb & Hcb).
+    rewrite bind_get, bind_lift, (meta_has_enc s enc Hne (codec_for_truthy _ _ _ Hcodec)).
     assert (Hne_d : ascii_text d <> []).
     { pose proof (dump_obj_nonempty kv d Hkv Hd). destruct d; [congruence | discriminate]. }
     destruct (prepare_text_ok s (ascii_text d) WNone WNone enc canon c cb Hne Hne_d) as (body & lo & Hprep & Hlo);
@@ -1249,7 +1283,9 @@ Proof.
     { subst fmt'. destruct Hfmt as [-> | (x & Hx & ->)]; eauto using default_meta_format_ok. }
     destruct Hfmt' as (x & Hx & Hfx). rewrite Hfx.
     rewrite bind_lift, (in_strset_member x _ Hx). cbn [negb].
-    rewrite bind_lift, Hd, ncontent_eq, Hv. reflexivity.
+    destruct Htx as (_ & canon & c & Hcodec & _).
+    rewrite bind_lift, Hd, bind_get, bind_lift, (meta_has_enc s enc Hne (codec_for_truthy _ _ _ Hcodec)).
+    rewrite ncontent_eq, Hv. reflexivity.
   - destruct Hargs as (b & -> & Hb & Hdt & Hle & Henc).
     rewrite bind_lift, (choice_in_strset _ _ Hdt). cbn [negb]. rewrite ncontent_eq, Hv. reflexivity.
 Qed.
